@@ -8,14 +8,9 @@ import PV.C06.Lemmas
 namespace PV.C07
 open PV.C06
 
-/-- no maximal run of constant pieces is present-but-empty (the shape of known finding
-    `empty-literal-piece`): `cur` as in `dedup` -/
-def noEmptyRun : Option (List Nat) → List Piece → Bool
-  | cur, [] => cur != some []
-  | cur, .lit s :: ps => noEmptyRun (some (cur.getD [] ++ s)) ps
-  | cur, .field _ _ _ _ :: ps => cur != some [] && noEmptyRun none ps
-
-theorem dedup_eq_merge : ∀ (ps : List Piece) (cur : Option (List Nat)), noEmptyRun cur ps = true →
+/-- `parse_strings`' merging is the reference merge: adjacent constants are joined and empty ones
+    dropped (`cur` as in `dedup`; a non-empty `current` vector never joins to the empty text) -/
+theorem dedup_eq_merge : ∀ (ps : List Piece) (cur : Option (List Nat)), cur ≠ some [] →
     dedup cur ps = Spec.mergeGo (cur.getD []) ps := by
   intro ps
   induction ps with
@@ -24,22 +19,24 @@ theorem dedup_eq_merge : ∀ (ps : List Piece) (cur : Option (List Nat)), noEmpt
     cases cur with
     | none => simp [dedup, Spec.mergeGo]
     | some s =>
-      have : s ≠ [] := by intro e; subst e; simp [noEmptyRun] at h
+      have : s ≠ [] := by intro e; subst e; exact h rfl
       simp [dedup, Spec.mergeGo, this]
   | cons p ps ih =>
     intro cur h
     cases p with
     | lit s =>
-      simp only [noEmptyRun] at h
-      have := ih _ h
-      cases cur <;> simpa [dedup, Spec.mergeGo] using this
+      by_cases hs : s = []
+      · subst hs
+        have := ih cur h
+        cases cur <;> simpa [dedup, Spec.mergeGo] using this
+      · have := ih (some (cur.getD [] ++ s)) (by simp [hs])
+        cases cur <;> simpa [dedup, Spec.mergeGo, hs] using this
     | field t o c sp =>
-      simp only [noEmptyRun, Bool.and_eq_true] at h
-      have := ih none h.2
+      have := ih none (by simp)
       cases cur with
       | none => simp [dedup, Spec.mergeGo, this]
       | some s =>
-        have hs : s ≠ [] := by intro e; subst e; simp at h
+        have hs : s ≠ [] := by intro e; subst e; exact h rfl
         simp [dedup, Spec.mergeGo, this, hs]
 
 theorem usize_eq (c : Nat) : Spec.usize c = csize c := rfl
@@ -52,13 +49,13 @@ theorem ulen_cons (c : Nat) (cs : List Nat) : Spec.ulen (c :: cs) = csize c + Sp
 theorem ulen_append (a b : List Nat) : Spec.ulen (a ++ b) = Spec.ulen a + Spec.ulen b := by
   simp [Spec.ulen]
 
-theorem closeString_skip (q : Nat) : ∀ (cs s r : List Nat) (loc : Nat),
-    Spec.closeString q false cs = some (s, r) → skipString q cs loc = some (s, r, loc + Spec.ulen s) := by
+theorem closeString_skip (q : Nat) : ∀ (cs s r : List Nat) (loc run : Nat),
+    Spec.closeString q false cs = some (s, r) → skipStr q false run cs loc = some (s, r, loc + Spec.ulen s) := by
   intro cs
   induction cs with
-  | nil => intro s r loc h; simp [Spec.closeString] at h
+  | nil => intro s r loc run h; simp [Spec.closeString] at h
   | cons c cs ih =>
-    intro s r loc h
+    intro s r loc run h
     unfold Spec.closeString at h
     by_cases h92 : c = 92
     · simp [h92] at h
@@ -67,7 +64,7 @@ theorem closeString_skip (q : Nat) : ∀ (cs s r : List Nat) (loc : Nat),
       · subst hq
         simp at h
         obtain ⟨rfl, rfl⟩ := h
-        simp [skipString, Spec.ulen]; rfl
+        simp [skipStr, Spec.ulen]; rfl
       · simp only [hq, false_and, if_false] at h
         cases hc : Spec.closeString q false cs with
         | none => simp [hc] at h
@@ -75,9 +72,107 @@ theorem closeString_skip (q : Nat) : ∀ (cs s r : List Nat) (loc : Nat),
           obtain ⟨s', r'⟩ := p
           simp [hc] at h
           obtain ⟨rfl, rfl⟩ := h
-          have := ih s' r' (loc + csize c) hc
-          simp [skipString, hq, this, ulen_cons]
+          have := ih s' r' (loc + csize c) 0 hc
+          simp [skipStr, hq, this, ulen_cons]
           omega
+
+/-- triple-quoted: the reference closes at the first quote followed by two more; the Rust loop
+    counts quote characters in a row (`run`).  They agree from `run = 0`, from `run = 1` unless two
+    quotes follow, and from `run = 2` unless one follows. -/
+theorem closeString3_skip (q : Nat) : ∀ (cs : List Nat),
+    (∀ s r loc, Spec.closeString q true cs = some (s, r) → skipStr q true 0 cs loc = some (s, r, loc + Spec.ulen s)) ∧
+    (∀ s r loc, ¬ cs.take 2 = [q, q] → Spec.closeString q true cs = some (s, r) →
+      skipStr q true 1 cs loc = some (s, r, loc + Spec.ulen s)) ∧
+    (∀ s r loc, cs.head? ≠ some q → Spec.closeString q true cs = some (s, r) →
+      skipStr q true 2 cs loc = some (s, r, loc + Spec.ulen s)) := by
+  intro cs
+  induction cs with
+  | nil =>
+    refine ⟨?_, ?_, ?_⟩ <;> intros <;> simp_all [Spec.closeString]
+  | cons c cs ih =>
+    obtain ⟨ih0, ih1, ih2⟩ := ih
+    -- the common "some other character" step
+    have other : ∀ (k : Nat) s r loc, c ≠ q → Spec.closeString q true (c :: cs) = some (s, r) →
+        skipStr q true k (c :: cs) loc = some (s, r, loc + Spec.ulen s) := by
+      intro k s r loc hq h
+      unfold Spec.closeString at h
+      by_cases h92 : c = 92
+      · simp [h92] at h
+      · simp only [h92, if_false, hq, false_and] at h
+        cases hc : Spec.closeString q true cs with
+        | none => simp [hc] at h
+        | some p =>
+          obtain ⟨s', r'⟩ := p
+          simp [hc] at h
+          obtain ⟨rfl, rfl⟩ := h
+          have := ih0 s' r' (loc + csize c) hc
+          unfold skipStr
+          simp [hq, this, ulen_cons]
+          omega
+    -- unfolding of the reference at a quote character
+    have atq : ∀ s r, c = q → Spec.closeString q true (c :: cs) = some (s, r) →
+        c ≠ 92 ∧ ((cs.take 2 = [q, q] ∧ s = [q, q, q] ∧ r = cs.drop 2) ∨
+          (¬ cs.take 2 = [q, q] ∧ ∃ s', s = q :: s' ∧ Spec.closeString q true cs = some (s', r))) := by
+      intro s r hq h
+      unfold Spec.closeString at h
+      by_cases h92 : c = 92
+      · simp [h92] at h
+      · refine ⟨h92, ?_⟩
+        rw [if_neg h92, if_neg (by simp)] at h
+        by_cases ht : cs.take 2 = [q, q]
+        · rw [if_pos ⟨hq, ht⟩] at h
+          simp at h
+          exact Or.inl ⟨ht, by rw [← h.1, hq], h.2.symm⟩
+        · rw [if_neg (fun hh => ht hh.2)] at h
+          cases hc : Spec.closeString q true cs with
+          | none => simp [hc] at h
+          | some p =>
+            obtain ⟨s', r'⟩ := p
+            simp [hc] at h
+            exact Or.inr ⟨ht, s', by rw [← h.1, hq], by rw [h.2]⟩
+    have hu : ∀ x, Spec.usize x = csize x := fun _ => rfl
+    refine ⟨?_, ?_, ?_⟩
+    · intro s r loc h
+      by_cases hq : c = q
+      · obtain ⟨h92, hcase⟩ := atq s r hq h
+        rcases hcase with ⟨ht, rfl, rfl⟩ | ⟨ht, s', rfl, hc⟩
+        · match cs, ht with
+          | a :: b :: rest, ht =>
+            simp at ht
+            obtain ⟨rfl, rfl⟩ := ht
+            subst hq
+            simp [skipStr, Spec.ulen, hu]
+            omega
+        · have := ih1 s' r (loc + csize c) ht hc
+          subst hq
+          unfold skipStr
+          simp [this, ulen_cons]; omega
+      · exact other 0 s r loc hq h
+    · intro s r loc ht h
+      by_cases hq : c = q
+      · obtain ⟨h92, hcase⟩ := atq s r hq h
+        subst hq
+        rcases hcase with ⟨ht2, rfl, rfl⟩ | ⟨ht2, s', rfl, hc⟩
+        · -- `c c c …`: excluded by the hypothesis on the first two characters
+          exfalso
+          match cs, ht2 with
+          | a :: b :: rest, ht2 =>
+            simp at ht2
+            obtain ⟨rfl, rfl⟩ := ht2
+            simp at ht
+        · have hh : cs.head? ≠ some c := by
+            intro e
+            match cs, e with
+            | a :: rest, e =>
+              simp at e; subst e
+              simp at ht
+          have := ih2 s' r (loc + csize c) hh hc
+          unfold skipStr
+          simp [this, ulen_cons]; omega
+      · exact other 1 s r loc hq h
+    · intro s r loc hh h
+      have hq : c ≠ q := by intro e; subst e; simp at hh
+      exact other 2 s r loc hq h
 
 /-! ### one-step equations of `fvLoop` -/
 
@@ -108,7 +203,7 @@ theorem fv_op2 (fuel nested location : Nat) (st : FvState) (ch : Nat) (cs : List
   simp only [h1, List.head?_cons, true_and, if_true, List.tail_cons]
 
 theorem fv_open (fuel nested location : Nat) (st : FvState) (ch : Nat) (cs : List Nat) (loc : Nat)
-    (h1 : ch = 40 ∨ ch = 123 ∨ ch = 91) :
+    (h1 : ch = 40 ∨ ch = 123 ∨ ch = 91) (h4 : st.selfDoc = false) :
     fvLoop lookup kind (fuel + 1) nested location st (ch :: cs) loc =
       fvLoop lookup kind fuel nested location { st with expr := st.expr ++ [ch], delims := ch :: st.delims } cs (loc + csize ch) := by
   have a : ((ch = 33 ∨ ch = 61 ∨ ch = 62 ∨ ch = 60) ∧ cs.head? = some 61) = False := by
@@ -116,7 +211,7 @@ theorem fv_open (fuel nested location : Nat) (st : FvState) (ch : Nat) (cs : Lis
   have b : ch ≠ 33 ∧ ch ≠ 61 ∧ ch ≠ 58 := by omega
   conv => lhs; unfold fvLoop
   simp only [a, if_false]
-  simp only [b.1, b.2.1, b.2.2, h1, false_and, if_false, if_true]
+  simp only [b.1, b.2.1, b.2.2, h1, h4, false_and, if_false, if_true, Bool.false_eq_true, not_false_eq_true, and_self]
 
 theorem fv_close (fuel nested location : Nat) (st : FvState) (o ch : Nat) (ds cs : List Nat) (loc : Nat)
     (hd : st.delims = o :: ds) (hc : Spec.closes o ch = true) :
@@ -132,15 +227,29 @@ theorem fv_close (fuel nested location : Nat) (st : FvState) (o ch : Nat) (ds cs
     simp [hd]
 
 theorem fv_quote (fuel nested location : Nat) (st : FvState) (ch : Nat) (cs s r : List Nat) (loc : Nat)
-    (hq : ch = 39 ∨ ch = 34) (hs : Spec.closeString ch false cs = some (s, r)) :
+    (hq : ch = 39 ∨ ch = 34) (h4 : st.selfDoc = false) (ht : ¬ cs.take 2 = [ch, ch])
+    (hs : Spec.closeString ch false cs = some (s, r)) :
     fvLoop lookup kind (fuel + 1) nested location st (ch :: cs) loc =
       fvLoop lookup kind fuel nested location { st with expr := st.expr ++ ch :: s } r (loc + csize ch + Spec.ulen s) := by
-  have := closeString_skip ch cs s r (loc + csize ch) hs
+  have := closeString_skip ch cs s r (loc + csize ch) 0 hs
   rcases hq with rfl | rfl
   · conv => lhs; unfold fvLoop
-    simp [this]
+    simp [this, h4, ht]
   · conv => lhs; unfold fvLoop
-    simp [this]
+    simp [this, h4, ht]
+
+theorem fv_quote3 (fuel nested location : Nat) (st : FvState) (ch : Nat) (cs s r : List Nat) (loc : Nat)
+    (hq : ch = 39 ∨ ch = 34) (h4 : st.selfDoc = false) (ht : cs.take 2 = [ch, ch])
+    (hs : Spec.closeString ch true (cs.drop 2) = some (s, r)) :
+    fvLoop lookup kind (fuel + 1) nested location st (ch :: cs) loc =
+      fvLoop lookup kind fuel nested location { st with expr := st.expr ++ ch :: ch :: ch :: s } r
+        (loc + csize ch + 2 + Spec.ulen s) := by
+  have := (closeString3_skip ch (cs.drop 2)).1 s r (loc + csize ch + 2) hs
+  rcases hq with rfl | rfl
+  · conv => lhs; unfold fvLoop
+    simp [this, h4, ht]
+  · conv => lhs; unfold fvLoop
+    simp [this, h4, ht]
 
 end steps
 
@@ -199,7 +308,20 @@ theorem expr_sim (lookup : List Nat → Option Nat) (kind : Kind) (nested locati
         · -- a (single-quoted) string
           simp only [hq, if_true] at h
           by_cases ht : cs.take 2 = [c, c]
-          · simp [ht] at h
+          · -- triple-quoted
+            simp only [ht, if_true] at h
+            cases hcs : Spec.closeString c true (cs.drop 2) with
+            | none => simp [hcs] at h
+            | some p =>
+              obtain ⟨s, r1⟩ := p
+              simp only [hcs] at h
+              exact cont (c :: c :: c :: s) stack r1 { st with expr := st.expr ++ c :: c :: c :: s }
+                (loc + csize c + 2 + Spec.ulen s) 1
+                h hst hsd rfl rfl rfl rfl
+                (by
+                  have h1 : csize c = 1 := by rcases hq with rfl | rfl <;> rfl
+                  rw [ulen_cons, ulen_cons, ulen_cons]; omega) (by simp)
+                (fun fuel => fv_quote3 lookup kind fuel nested location st c cs s r1 loc hq hsd ht hcs)
           · simp only [ht, if_false] at h
             cases hcs : Spec.closeString c false cs with
             | none => simp [hcs] at h
@@ -208,7 +330,7 @@ theorem expr_sim (lookup : List Nat → Option Nat) (kind : Kind) (nested locati
               simp only [hcs] at h
               exact cont (c :: s) stack r1 { st with expr := st.expr ++ c :: s } (loc + csize c + Spec.ulen s) 1
                 h hst hsd rfl rfl rfl rfl (by rw [ulen_cons]; omega) (by simp)
-                (fun fuel => fv_quote lookup kind fuel nested location st c cs s r1 loc hq hcs)
+                (fun fuel => fv_quote lookup kind fuel nested location st c cs s r1 loc hq hsd ht hcs)
         · simp only [hq, if_false] at h
           by_cases ho : Spec.isOpen c = true
           · -- opening bracket
@@ -217,7 +339,7 @@ theorem expr_sim (lookup : List Nat → Option Nat) (kind : Kind) (nested locati
               simp [Spec.isOpen] at ho; omega
             exact cont [c] (c :: stack) cs { st with expr := st.expr ++ [c], delims := c :: st.delims }
               (loc + csize c) 1 h (by simp [hst]) hsd rfl rfl rfl rfl (by rw [ulen_cons]; simp [Spec.ulen]) (by simp)
-              (fun fuel => fv_open lookup kind fuel nested location st c cs loc ho')
+              (fun fuel => fv_open lookup kind fuel nested location st c cs loc ho' hsd)
           · simp only [ho, Bool.false_eq_true, if_false] at h
             have ho' : c ≠ 40 ∧ c ≠ 123 ∧ c ≠ 91 := by
               simp [Spec.isOpen] at ho; omega
@@ -333,12 +455,17 @@ theorem fv_selfdoc (fuel nested location : Nat) (st : FvState) (cs : List Nat) (
   conv => lhs; unfold fvLoop
   simp [hd, hp, csize]
 
-theorem fv_space (fuel nested location : Nat) (st : FvState) (cs : List Nat) (loc : Nat)
-    (hs : st.selfDoc = true) :
-    fvLoop lookup kind (fuel + 1) nested location st (32 :: cs) loc =
-      fvLoop lookup kind fuel nested location { st with trailing := st.trailing ++ [32] } cs (loc + 1) := by
-  conv => lhs; unfold fvLoop
-  simp [hs, csize]
+/-- the blanks the scanner accepts after a self-documenting `=` -/
+def isBlankAfterEq (c : Nat) : Bool := c = 32 || c = 9 || c = 10 || c = 11 || c = 12
+
+theorem fv_space (fuel nested location : Nat) (st : FvState) (ch : Nat) (cs : List Nat) (loc : Nat)
+    (hb : isBlankAfterEq ch = true) (hs : st.selfDoc = true) :
+    fvLoop lookup kind (fuel + 1) nested location st (ch :: cs) loc =
+      fvLoop lookup kind fuel nested location { st with trailing := st.trailing ++ [ch] } cs (loc + 1) := by
+  simp only [isBlankAfterEq, Bool.or_eq_true, decide_eq_true_eq] at hb
+  rcases hb with (((rfl | rfl) | rfl) | rfl) | rfl <;>
+  · conv => lhs; unfold fvLoop
+    simp [hs, csize]
 
 theorem fv_conv (fuel nested location : Nat) (st : FvState) (c : Nat) (cv : Conv) (cs : List Nat) (loc : Nat)
     (hd : st.delims = []) (he : trimIsEmpty st.expr = false) (hc : Spec.convOfChar c = some cv)
